@@ -1,6 +1,6 @@
 """C09 — search returns exactly the nodes that satisfy the query."""
 from __future__ import annotations
-import itertools, random
+import itertools, random, zlib
 import core
 from core import hx, nats
 from runner import Case
@@ -368,6 +368,25 @@ def _gen_histories(rng, quick):
                 for st in range(n):
                     for nm in names:
                         out.append(mk("find_child_by_name", dict(base, start=st), tags, name=nm))
+    # a WIDE parent (60 children): one child leaves and another node arrives (the number of children is what it was),
+    # one child is renamed - then look-ups of the old, the new and the untouched names through that parent
+    wide = ("r", {}, [("k%d" % i, {}, [("g", {}, [])] if i == 0 else []) for i in range(60)])
+    wn = H.from_spec(wide)
+    idx = {x.name: x.idx for x in wn}
+    for build in ("nodes", "list"):
+        for edits in ([["move", idx["k5"], idx["k6"]], ["move", idx["g"], 0]],
+                      [["rename", idx["k7"], "zz"]],
+                      [["move", idx["k5"], idx["k6"]], ["move", idx["g"], 0], ["rename", idx["k9"], "k5"]]):
+            base = _hist_base(rng, wide, edits, "/", build)
+            base["hist"]["sep0"] = "/"
+            tags = ("hist-wide", "build=" + build)
+            b0 = dict(base, start=0)
+            for nm in ("k5", "g", "k7", "zz", "k9", "k6", "k59", "k0"):
+                out.append(mk("find_child_by_name", b0, tags, name=nm))
+                out.append(mk("find_full_path", b0, tags, q="r/" + nm))
+                out.append(mk("find_relative_paths", b0, tags, q=nm))
+            out.append(mk("find_full_path", b0, tags, q="r/k6/k5"))
+            out.append(mk("find_full_path", b0, tags, q="r/k0/g"))
     # random histories, every function
     for _ in range(40 if quick else 400):
         size = rng.randint(3, 20)
@@ -732,7 +751,27 @@ def _expect_rel(start, comps, wild):
     return cur
 
 
+def worker_impl(d):
+    """executed in a worker interpreter (props/_twoproc.py): the outcome line of one case"""
+    return impl(Case("", d, ()))
+
+
 def oracle(case):
+    msgs = _oracle(case)
+    d = case.data
+    if not msgs and not d.get("hist") and zlib.crc32(case.line.encode()) % 7 == 0:
+        here = impl(case)
+        if here == "SearchError":
+            # the count contract and the "several match" refusal are not among the optional type/loop checks: the same
+            # query in an interpreter started with BIGTREE_CONF_ASSERTIONS="" must be refused as well
+            from props import _twoproc
+            off = _twoproc.call("off", "props.C09:worker_impl", d)
+            if off != here:
+                msgs.append(f"with BIGTREE_CONF_ASSERTIONS switched off the query is no longer refused with SearchError: {off[:120]}")
+    return msgs
+
+
+def _oracle(case):
     d = case.data
     nodes, ids, res = _run(d)
     fn = d["fn"]
